@@ -39,7 +39,7 @@ ENGINES = [
 # ---------------------------------------------------------------------------------------------------
 # Kani suites
 
-def _ksrc_read(tier):
+def _ksrc_read(tier, crate_dir=None):
     L = 40 if tier == 'thorough' else 16
     hs = []
     for n in range(0, L + 1):
@@ -50,22 +50,22 @@ def _ksrc_read(tier):
             for k in (2, 8): hs.append('read_deref_n%d_k%d' % (n, k))
     return hs
 
-def _ksrc_state(tier):
+def _ksrc_state(tier, crate_dir=None):
     ns = range(0, 13) if tier == 'thorough' else (0, 1, 4, 9)
     return ['state_n%d' % n for n in ns]
 
-def _ksrc_bump(tier):
+def _ksrc_bump(tier, crate_dir=None):
     ns = range(0, 13) if tier == 'thorough' else (0, 3, 7)
     return ['bump_twin_n%d' % n for n in ns] + ['bump_str'] + ['state_n%d' % n for n in ((0, 4, 9) if tier != 'thorough' else range(0, 13))]
 
 BUMP_ALLOW = {r'bump_twin_n\d+|bump_str': ['Invalid Lexer bump']}
 
-KSRC_STATE = dict(crate='src_proofs', label='K-src lexer state', harnesses=_ksrc_state, configs=[(), ('forbid_unsafe',)],
+KSRC_STATE = dict(crate='src_proofs', pool=False, label='K-src lexer state', harnesses=_ksrc_state, configs=[(), ('forbid_unsafe',)],
                   bounded=lambda tier: 'real (unsafe and forbid_unsafe) slicing code under every wf state of sources of length <= %d; state symbolic, length bounded' % (12 if tier == 'thorough' else 9))
-KSRC_BUMP = dict(crate='src_proofs', label='K-src bump twin', harnesses=_ksrc_bump, configs=[(), ('forbid_unsafe',)],
+KSRC_BUMP = dict(crate='src_proofs', pool=False, label='K-src bump twin', harnesses=_ksrc_bump, configs=[(), ('forbid_unsafe',)],
                  allow=BUMP_ALLOW, expect=BUMP_ALLOW,
                  bounded=lambda tier: 'bump over all (start, end, n) incl. overflowing n, sources of length <= %d; a fixed 11-byte str with 1-4 byte chars' % (12 if tier == 'thorough' else 7))
-KSRC_READ = dict(crate='src_proofs', label='K-src Source::read', harnesses=_ksrc_read, configs=[(), ('forbid_unsafe',)],
+KSRC_READ = dict(crate='src_proofs', pool=False, label='K-src Source::read', harnesses=_ksrc_read, configs=[(), ('forbid_unsafe',)],
                  bounded=lambda tier: 'Source::read on exactly sized buffers of every length 0..=%d, chunk sizes 1/2/8/32, offset fully symbolic over usize (loop-free: complete in offset, bounded in length)' % (40 if tier == 'thorough' else 16))
 
 def _bump_candidates():
